@@ -351,6 +351,9 @@ def run(ctx):
     # a slice of a (stepped) slice addresses the documented wells
     from .c13 import subslice_composition
     subslice_composition(ctx, 'C07.R1')
+    # wells are distinct objects
+    from .c13 import distinct_wells
+    distinct_wells(ctx, 'C07.R1')
     # two slices are rebound to one plate copy only if they address the very same plate object: otherwise the wells
     # of one plate are read from (and written to) a copy of the other
     c01.shared_plate_copy(ctx, 'C07.R1', identity_only=True)
